@@ -261,6 +261,11 @@ def run(case):
         if base.to_header_string() != hdr0 or list(base._naxis) != naxis0:
             fails.append("the base FITS WCS passed in was modified")
         dda = [bool(x) for x in dda]
+        if not isinstance(fw, WCS):
+            fails.append(f"the translation is a {type(fw).__name__}, not a plain FITS WCS")
+        elif list(fw.wcs.ctype) != list(base.wcs.ctype) or [str(x) for x in fw.wcs.cunit] != [str(x) for x in base.wcs.cunit] \
+                or len(dda) != base.wcs.naxis:
+            fails.append(f"axis types / units / count of the translation ({list(fw.wcs.ctype)}, {len(dda)} flags) are not the base's ({list(base.wcs.ctype)})")
         # numpy-order dropped flags vs the top-level WCS: kept axes = top pixel dims
         if dda.count(False) != top.pixel_n_dim:
             fails.append(f"dropped flags {dda} do not leave {top.pixel_n_dim} axes")
